@@ -81,40 +81,22 @@ func ratStrOrNil(x *big.Rat) string {
 	return fstr(x)
 }
 
-// encoderForm extracts pkg.To8Bit / To16Bit with the quantisers opaque:
-// index(table, call:quant(v)).
-func encoderForm(p *Program, fn *ssa.Function) (table, quant string, err error) {
-	e := NewEngine(p)
-	e.Opaque = opaqueSet(quantFns(p)...)
-	v, err := single(p, e, fn, nil)
+// encoderForm interprets pkg.To8Bit / To16Bit with the quantisers opaque:
+// table[call:quant(v)]; it returns the table read and the quantiser used.
+func encoderForm(p *Program, fn *ssa.Function) (ref tableRef, quant string, err error) {
+	ref, idx, e, err := entryTable(p, fn)
 	if err != nil {
-		return "", "", err
-	}
-	f, ok := v.(*Form)
-	if !ok {
-		return "", "", fmt.Errorf("non-numeric result")
-	}
-	an, ok := f.SingleAtom()
-	if !ok {
-		return "", "", fmt.Errorf("encoder returns %s", trunc(f.String(), 160))
-	}
-	at := e.A.get(an)
-	if at == nil || at.Fn != "index" || len(at.Args) != 2 {
-		return "", "", fmt.Errorf("encoder returns %s, not a table lookup", trunc(f.String(), 160))
-	}
-	idx, _ := at.Args[1].(*Form)
-	if idx == nil {
-		return "", "", fmt.Errorf("non-numeric table index")
+		return ref, "", err
 	}
 	in, ok := idx.SingleAtom()
 	if !ok {
-		return "", "", fmt.Errorf("table index is %s", trunc(idx.String(), 160))
+		return ref, "", fmt.Errorf("table index is %s", trunc(idx.String(), 160))
 	}
 	iat := e.A.get(in)
 	if iat == nil || !strings.HasPrefix(iat.Fn, "call:linear.NormalisedTo") || len(iat.Args) != 1 || valKey(iat.Args[0]) != "1*"+fn.Params[0].Name() {
-		return "", "", fmt.Errorf("table index is %s; required a clamping quantiser applied to the unmodified argument", trunc(idx.String(), 160))
+		return ref, "", fmt.Errorf("table index is %s; required a clamping quantiser applied to the unmodified argument", trunc(idx.String(), 160))
 	}
-	return valKey(at.Args[0]), strings.TrimPrefix(iat.Fn, "call:linear."), nil
+	return ref, strings.TrimPrefix(iat.Fn, "call:linear."), nil
 }
 
 // checkTableAgreement: the writer's and the reader's view of each encode table agree.
@@ -138,24 +120,20 @@ func checkTableAgreement(p *Program, r *Report, pre string) {
 				continue
 			}
 			r.SawFn(shortFn(fn))
-			table, quant, err := encoderForm(p, fn)
+			ref, quant, err := encoderForm(p, fn)
 			if err != nil {
 				r.Violate(rule, key, p.FnPos(fn), err.Error())
 				continue
 			}
-			// table length from its builder
+			// table length from its builder's result type
 			var n int64 = -1
-			if g := p.Global(pk, d.table); g != nil {
-				if li := lutFilledBy(p, g); li.Builder != nil {
-					if at, ok := li.Builder.Signature.Results().At(0).Type().Underlying().(*types.Array); ok {
-						n = at.Len()
-					}
-				}
+			if at, ok := ref.Builder.Signature.Results().At(0).Type().Underlying().(*types.Array); ok {
+				n = at.Len()
 			}
-			ok := table == pk+"."+d.table && maxOf[quant] == n-1
+			ok := ref.Builder == p.Func("linear/lut", d.builder) && maxOf[quant] == n-1
 			r.Check(ok, rule, key, p.FnPos(fn),
-				fmt.Sprintf("= %s[%s(v)]: index range 0..%d equals the table's %d entries, so every float (±Inf included) indexes in range", table, quant, maxOf[quant], n),
-				fmt.Sprintf("encoder indexes %s (length %d) with %s (range 0..%d): writer and reader disagree on the table's resolution", table, n, quant, maxOf[quant]))
+				fmt.Sprintf("= %s[%s(v)]: index range 0..%d equals the table's %d entries, so every float (±Inf included) indexes in range", ref, quant, maxOf[quant], n),
+				fmt.Sprintf("encoder indexes %s (length %d) with %s (range 0..%d): writer and reader disagree on the table's resolution", ref, n, quant, maxOf[quant]))
 		}
 	}
 }
@@ -203,8 +181,8 @@ func checkEncoders(p *Program, r *Report, rule string) {
 	qf := quantFns(p)
 	for _, sp := range allSpaces {
 		src := tableSource(sp)
-		lut8 := &Opaque{Key: src + ".linearToEncoded8LUT"}
-		lut16 := &Opaque{Key: src + ".linearToEncoded16LUT"}
+		lut8 := tableBase(p, src, "To8Bit")
+		lut16 := tableBase(p, src, "To16Bit")
 		for _, m := range []struct {
 			name   string
 			lut    *Opaque
@@ -223,8 +201,7 @@ func checkEncoders(p *Program, r *Report, rule string) {
 				continue
 			}
 			r.SawFn(shortFn(fn))
-			e := NewEngine(p)
-			e.Opaque = opaqueSet(qf...)
+			e := wiringEngine(p, true)
 			v, err := single(p, e, fn, nil)
 			if err != nil {
 				r.Violate(rule, key, p.FnPos(fn), err.Error())
@@ -242,7 +219,7 @@ func checkEncoders(p *Program, r *Report, rule string) {
 				if m.premul {
 					how = "trcEncode(c." + ch + "·alpha)"
 				}
-				r.Check(ok && f.Equal(want), rule, key+" "+ch, p.FnPos(fn), "= "+how+" through "+m.lut.Key, "channel "+ch+" is "+trunc(valKey(f), 200)+"; required "+want.Key())
+				r.Check(ok && f.Equal(want), rule, key+" "+ch, p.FnPos(fn), "= "+how+" through the "+src+" encode table", "channel "+ch+" is "+trunc(valKey(f), 200)+"; required "+want.Key())
 			}
 			a, ok := formAt(v, 3)
 			wantA := e.A.App("call:linear."+m.alphaQ, nil, alpha)
@@ -415,13 +392,12 @@ func checkColorFuncs(p *Program, r *Report, rule string) {
 
 // checkAlphaNRGBA (C04.alpha): ColorFromNRGBA alpha = A/255, ToNRGBA A = NormalisedTo8Bit(alpha).
 func checkAlphaNRGBA(p *Program, r *Report, rule string) {
-	qf := quantFns(p)
 	for _, sp := range allSpaces {
 		fn := p.Func(sp, "ColorFromNRGBA")
 		if fn == nil {
 			r.Undecide(rule, sp+".ColorFromNRGBA alpha", "-", "not found")
 		} else {
-			e := NewEngine(p)
+			e := wiringEngine(p, false)
 			v, err := single(p, e, fn, nil)
 			a, ok := formAt(v, 1)
 			r.Check(err == nil && ok && a.Equal(formAtom("c.A").Div(formInt(255))), rule, sp+".ColorFromNRGBA alpha", p.FnPos(fn), "alpha = float32(c.A)/255", fmt.Sprintf("alpha is %s (%v)", trunc(valKey(a), 100), err))
@@ -431,8 +407,7 @@ func checkAlphaNRGBA(p *Program, r *Report, rule string) {
 			r.Undecide(rule, sp+".Color.ToNRGBA A", "-", "not found")
 			continue
 		}
-		e := NewEngine(p)
-		e.Opaque = opaqueSet(qf...)
+		e := wiringEngine(p, true)
 		v, err := single(p, e, m, nil)
 		a, ok := formAt(v, 3)
 		want := e.A.App("call:linear.NormalisedTo8Bit", nil, formAtom("alpha"))
